@@ -406,6 +406,20 @@ def novel_chains(src, sc, g, k=2, sep=40, edits=("skip", "alt_donor", "alt_accep
             continue
         if new[-1][1] >= chrom_len(sc, g["chr"]) - 60:
             continue
+        if sep:
+            # keep every new splice site identical to or >= sep away from all sites already on the chromosome
+            sites = set()
+            for g2 in sc["genes"]:
+                if g2["chr"] == g["chr"]:
+                    for t2 in g2["transcripts"]:
+                        sites |= _sites(t2["exons"])
+            for nv in sc.get("novel", []):
+                if nv["chr"] == g["chr"]:
+                    sites |= _sites(nv["exons"])
+            for o in out:
+                sites |= _sites(o)
+            if not (_self_ok(new, sep) and _sites_ok(_sites(new), sites, sep)):
+                continue
         out.append(new)
     return out
 
